@@ -242,7 +242,11 @@ class Program(object):
             kw["optional"] = opt if len(opt) > 1 or (self.variant % 3) else opt[0]
         if kind == "parser":
             kw = {"continue_on_error": bool(p["coe"])}
-        deco(*pos, **kw)(body)
+        if kind != "parser" and pos and (self.variant + 2 * c) % 5 == 0:
+            # the documented keyword form of the same declaration: requires=[...] instead of positional arguments
+            deco(requires=list(pos), **kw)(body)
+        else:
+            deco(*pos, **kw)(body)
         self._bind(c, body, p)
 
     def _bind(self, c, obj, p):
